@@ -216,6 +216,23 @@ def run(ctx):
     if not thorough:
         # quick tier: every gate occurrence of the first four workloads
         delay = [d for d in delay if d["id"].split("/")[1] in ("serial3", "serial2sig", "serial2race", "parallel3")]
+    else:
+        # thorough tier: additionally pairs of held gate occurrences (i, j > i) per workload, sampled by the seed
+        import random
+        rng = random.Random(ctx.seed * 31 + 17)
+        singles = list(delay)
+        byw = {}
+        for d in singles:
+            byw.setdefault(d["id"].split("/")[1], []).append(d)
+        pairs = []
+        for wname, ds in byw.items():
+            cand = [(i, j) for i in range(len(ds)) for j in range(i + 1, len(ds))]
+            rng.shuffle(cand)
+            for i, j in cand[:400]:
+                a, b = ds[i], ds[j]
+                pairs.append(dict(a, id="delay2/%s/%s#%d+%s#%d" % (wname, a["delay_key"], a["delay_nth"], b["delay_key"], b["delay_nth"]),
+                                  delay2_key=b["delay_key"], delay2_nth=b["delay_nth"]))
+        delay = singles + pairs
     dres = A.run_driver(ctx, delay)
     hit = 0
     for sc, rr in zip(delay, dres):
